@@ -96,7 +96,7 @@ def _mk_method(name):
 class _NNSub(torch.nn.Module):
     def __init__(self, W):
         super().__init__()
-        self.W = torch.nn.Parameter(W)
+        self.W = torch.nn.Parameter(W, requires_grad=W.requires_grad)
 
 
 class NNModel(torch.nn.Module):
@@ -104,7 +104,7 @@ class NNModel(torch.nn.Module):
 
     def __init__(self, W, c, s, ticker):
         super().__init__()
-        self.c = torch.nn.Parameter(c)
+        self.c = torch.nn.Parameter(c, requires_grad=c.requires_grad)
         self.sub = _NNSub(W)
         self.s = s
         self._ticker = ticker
@@ -118,8 +118,8 @@ class NNTied(torch.nn.Module):
 
     def __init__(self, W, c, s, ticker):
         super().__init__()
-        self.c = torch.nn.Parameter(c)
-        self.W = torch.nn.Parameter(W)
+        self.c = torch.nn.Parameter(c, requires_grad=c.requires_grad)
+        self.W = torch.nn.Parameter(W, requires_grad=W.requires_grad)
         self.c2 = self.c
         self.s = s
         self._ticker = ticker
@@ -220,8 +220,10 @@ class Repr(object):
     def __init__(self, kind, W0, c0, s=0.3, requires_grad=True):
         self.kind = kind
         self.ticker = Ticker()
-        W0 = W0.detach().clone().requires_grad_(requires_grad)
-        c0 = c0.detach().clone().requires_grad_(requires_grad)
+        rg = requires_grad if isinstance(requires_grad, (tuple, list)) else (requires_grad, requires_grad)
+        self.rg = tuple(bool(x) for x in rg)
+        W0 = W0.detach().clone().requires_grad_(self.rg[0])
+        c0 = c0.detach().clone().requires_grad_(self.rg[1])
         self.s = s
         self.objects = []
         t = self.ticker
